@@ -18,7 +18,7 @@ ASSUMPTIONS = ["autoindent on or off per case; the reference models the line edi
 
 ATOMS = ["foo", "bar", "a", "x1", " ", " ", "  ", "\t", ".", "(", ")", "-", "é", "日", "😀", "ß", "o", "Ab"]
 line = st.one_of(st.lists(st.sampled_from(ATOMS), max_size=8).map("".join), st.just(""), st.just(" x"))
-count = st.sampled_from([0, 0, 0, 0, 1, 2, 3, 4, 9])
+count = st.sampled_from([0, 0, 0, 0, 0, 0, 0, 0, 1, 1, 2, 2, 3, 3, 4, 4, 9, 9, 65536, 2147483648, 4294967295, 4294967298])
 MOTS = ["h", "l", "j", "k", "0", "^", "$", "w", "b", "e", "W", "B", "E", "G", "+", "-", "_", "{", "}", " ", "\x7f", "%", ";", ",", "H", "L", "|"]
 TYPED = ["foo", "é日", "a b", "x\ny", "", " ", "bar\x08z", "q w\x17e", "abc\x15d", "\x16\tz", "1\n2\n3", "  in", "\n", "\x14x\ny", "a\n\x04b", "  p\nq\n\x04r",
          "\x14\x14k\n\x04l", " \n x", "\x04z", "\tt\n\n u"]
@@ -45,7 +45,7 @@ def mot(draw):
 @st.composite
 def command(draw):
     k = draw(st.integers(0, 21))
-    c1, c2 = draw(count), draw(st.sampled_from([0, 0, 0, 2, 3]))
+    c1, c2 = draw(count), draw(st.sampled_from([0, 0, 0, 0, 0, 0, 2, 2, 3, 3, 65536]))
     reg = draw(st.sampled_from(REGW))
     if k <= 5:
         op = draw(st.sampled_from(["d", "d", "c", "y", "y", "<", ">", "g~", "gu", "gU"]))
@@ -62,6 +62,8 @@ def command(draw):
         return {"k": "short", "key": draw(st.sampled_from(["x", "X", "D", "Y", "x", "X", "~"])), "reg": reg, "c1": c1}
     if k == 9:
         return {"k": "short", "key": draw(st.sampled_from(["C", "s", "S"])), "reg": reg, "c1": c1, "typed": draw(st.sampled_from(TYPED))}
+    if c1 > 1000 and k > 8:
+        c1 = 3              # (N copies of a register, N joins ... are executed literally: resource use, not the property)
     if k <= 13:
         return {"k": "put", "key": draw(st.sampled_from("pP")), "reg": draw(st.sampled_from(REGR)), "c1": c1}
     if k == 14 and c1 != 9:
